@@ -73,6 +73,29 @@ pub fn scenarios(ctx: &Ctx) -> Vec<Case> {
             meta: json!({}),
         });
     }
+    // environment: TRUTH_MAP_PATH listing several directories, two of which hold a matching any.* map
+    // (the first in listed order must win, whatever the hash order)
+    for item in ctx.corpus.binaries().filter(|b| b.id.starts_with("b2b/")) {
+        let ext = match item.cmd.as_str() {
+            "truanm" => "anmm",
+            "trustd" => "stdm",
+            "trumsg" => "msgm",
+            _ => "eclm",
+        };
+        let magic = match item.cmd.as_str() {
+            "truanm" => "!anmmap",
+            "trustd" => "!stdmap",
+            "trumsg" => "!msgmap",
+            _ => "!eclmap",
+        };
+        let mut c = scen::binary_roundtrip_case(item, &[], None, false);
+        for (dir, alias) in [("mapdirA", "fromDirA"), ("mapdirB", "fromDirB"), ("mapdirC", "fromDirC")] {
+            c.inputs.push(crate::case::Input::text(&format!("{}/any.{}", dir, ext), &format!("{}\n!ins_names\n0 {}\n1 {}One\n", magic, alias, alias)));
+        }
+        c.steps[0].env.push(("TRUTH_MAP_PATH".into(), "nonexistent:mapdirB:mapdirA:mapdirC:mapdirB:map".into()));
+        c.name = format!("{} env=TRUTH_MAP_PATH(multi)", c.name);
+        push(c);
+    }
     for item in ctx.corpus.binaries() {
         push(scen::binary_roundtrip_case(item, &[], None, true));
         push(scen::binary_roundtrip_case(item, &[], None, false));
